@@ -164,6 +164,14 @@ def structural_get_context(repo):
 
 
 STRUCTURAL = [structural_get_context]
+def _standin(repo, seed, tier):
+    from pyvc.standin import run_standin
+    return run_standin('C18', tier, seed, repo)
+
+
+_standin.tiers = ('quick', 'thorough')
+BOUNDED = [_standin]
+
 NOT_DECIDED = ['positions in a definition header (statement and upstream tests disagree; left unspecified)',
                'create_context / create_value composition (tree depth); run-time __qualname__ of decorated or re-bound objects',
                'import-name special cases of AbstractTreeName.get_qualified_names']
